@@ -180,6 +180,22 @@ func Worker(t *testing.T) {
 		if err := json.Unmarshal(b, &c); err != nil {
 			t.Fatalf("replay: %v", err)
 		}
+		var kind struct {
+			Kind string `json:"kind"`
+			Tier string `json:"tier"`
+		}
+		json.Unmarshal(b, &kind)
+		if kind.Kind == "seed" {
+			// a crash or hang that took the worker down: the replay is the seed itself
+			g := p.Gen(sim.NewRand(sim.Mix(c.Seed)), kind.Tier)
+			g.Property, g.Seed = env.Prop, c.Seed
+			o := p.Exec(t, g, nil)
+			res.Runs = 1
+			if o.Class != "" {
+				res.Violations = append(res.Violations, sim.Violation{Class: o.Class, Detail: o.Detail, Seed: c.Seed, Replay: env.Replay, LogHash: fmt.Sprintf("%016x", o.Hash)})
+			}
+			return
+		}
 		sched := c.Schedule
 		if sched == nil {
 			sched = []int{}
